@@ -435,8 +435,18 @@ func (s c20Spec) ident() uint64 {
 	return acc
 }
 
+var c20EmptySpelling uint32
+
 // fresh tally.Buckets backed by its own slice
 func (s c20Spec) buckets() tally.Buckets {
+	if len(s.bits) == 0 && atomic.AddUint32(&c20EmptySpelling, 1)%2 == 0 {
+		// a bound-less set spelled as a typed nil slice (`var set tally.ValueBuckets`): still a specification of
+		// its own (one bucket over the whole line), not a request for the default buckets
+		if s.kind == 'd' {
+			return tally.DurationBuckets(nil)
+		}
+		return tally.ValueBuckets(nil)
+	}
 	if s.kind == 'd' {
 		out := make(tally.DurationBuckets, len(s.bits))
 		for i, b := range s.bits {
